@@ -98,6 +98,59 @@ def gen_ops(ctx):
     return ops
 
 
+GAPS = [0, 1, 16, 500, 1023, 1024, 1100, 2100, 5000]
+
+
+def gen_programs(ctx):
+    """LoongArch programs for the assembler: 'asmprog <base> <t|d> <data pads> <text items>' (see harness/c18)."""
+    rng = ctx.rng
+    bases = [0x120000000, 0x10000, 0x7fff0000, 0xffff0000, 0x10000000000, 0x80000000]
+    progs = []
+    # fixed shapes: one symbol referenced again and again across pages (data, label before, label after, function)
+    for order in "td":
+        progs.append("asmprog %d %s 0 rD0,n1100,rD0,n2100,rD0,n5000,rD0,n0,rD0" % (bases[0], order))
+        progs.append("asmprog %d %s 2040,4088 n1003,rD1,rD0,n1023,rD1,n1024,rD0,iD0/D1,n500,iD1/D0" % (bases[1], order))
+    progs.append("asmprog %d t - l0,rL0,n1100,rL0,n2100,rL0,n5000,rL0" % bases[2])
+    progs.append("asmprog %d t - rL0,n1100,rL0,n5000,rL0,l0,n16,rL0" % bases[3])
+    progs.append("asmprog %d t 8 rF2,n1100,rF2,rS0,n2100,rS0,rF2,F,rS0,n5000,rS0,rF2,n1023,rF2,rD0,n1024,rD0" % bases[0])
+    n = 16 if ctx.tier == "quick" else 300
+    for _ in range(n):
+        nd = rng.choice([0, 1, 1, 2, 3])
+        pads = [rng.choice([0, 1, 8, 2039, 2040, 2047, 2048, 4087, 4088, 4096, rng.randrange(0, 12000)]) for _ in range(nd)]
+        items = []
+        for fn in range(rng.choice([1, 1, 2])):
+            if fn == 1:
+                items.append("F")
+            nlab = rng.choice([0, 1, 2])
+            labs = ["L%d" % (10 * fn + j) for j in range(nlab)]
+            syms = ["D%d" % i for i in range(nd)] + labs + ["S0"] + (["F2"] if "F" in items or rng.random() < 0.0 else [])
+            # labels get defined at a random position among the items of this function (before or after their uses)
+            k = rng.choice([3, 4, 5, 6])
+            lab_at = {l: rng.randrange(0, k + 1) for l in labs}
+            hot = rng.choice(syms)                    # the symbol referenced repeatedly
+            for pos in range(k + 1):
+                for l in labs:
+                    if lab_at[l] == pos:
+                        items.append("l" + l[1:])
+                if pos == k:
+                    break
+                sname = hot if rng.random() < 0.6 else rng.choice(syms)
+                if rng.random() < 0.2:
+                    items.append("i%s/%s" % (sname, rng.choice(syms)))
+                else:
+                    items.append("r" + sname)
+                g = rng.choice(GAPS)
+                if g:
+                    items.append("n%d" % g)
+        if rng.random() < 0.3:
+            items.insert(0, "n%d" % rng.choice([979, 980, 1003, 1004, rng.randrange(0, 1100)]))
+        # F2 may only be named if the program has a second function
+        if "F" not in items:
+            items = [it.replace("F2", "S0") for it in items]
+        progs.append("asmprog %d %s %s %s" % (rng.choice(bases), rng.choice("td"), ",".join(map(str, pads)) or "-", ",".join(items)))
+    return progs
+
+
 def run(ctx):
     harness = ctx.build_harness("c18")
     ctx.prove(required=REQUIRED)
@@ -126,21 +179,52 @@ def run(ctx):
 
     e2e_model_ops, e2e_fields = [], []
 
+    first_ref = {}
+
+    def check_pair(op, r, pc, sym, hi, lo, cpu, name, key):
+        bump("asm-e2e-pair")
+        f0 = first_ref.setdefault(key, pc)
+        dist_pages = abs((pc >> 12) - (f0 >> 12))
+        nontrivial.add(("e2e", name[:1], pc != f0, min(dist_pages, 2), lo >= 0x800, sym < pc))
+        if pc != f0:
+            bump("asm-e2e-repeat:%s" % ("same-page" if dist_pages == 0 else "adjacent-page" if dist_pages == 1 else "far-page"))
+        if cpu != sym or cpu_la64(pc, hi, lo) != sym:
+            ctx.violation("asm-e2e:la64-wrong-address",
+                          "%s: the pcalau12i/addi.d pair for %s at pc=%#x has hi20=%d lo12=%d and gives %#x; the symbol is at %#x "
+                          "(%s reference to it in the function, %d page(s) from the first)" % (
+                              op, name, pc, hi, lo, cpu_la64(pc, hi, lo), sym, "first" if pc == f0 else "repeated", dist_pages),
+                          {"op": op, "impl": r})
+        e2e_model_ops.append("la %d %d" % (sym, pc)); e2e_fields.append("%d %d" % (hi, lo))
+
     def check_e2e(op, r):
         if not r.startswith("ok "):
             ctx.violation("asm-e2e:" + r.split()[0], "%s -> %s" % (op, r), {"op": op, "impl": r}); return
+        if op.startswith("asmprog"):
+            parts = [x.strip() for x in r.split("|")]
+            # the function a reference is in = number of "F" items before it; count pairs per (program, function, symbol)
+            fn_of = []
+            fn = 0
+            for it in op.split()[4].split(","):
+                if it == "F":
+                    fn += 1
+                elif it[0] == "r":
+                    fn_of.append(fn)
+                elif it[0] == "i":
+                    fn_of += [fn, fn]
+            if len(parts) - 1 != len(fn_of) or int(parts[0].split()[1]) != len(fn_of):
+                ctx.violation("asm-e2e:pair-count", "%s -> %d pairs reported, %d generated" % (op, len(parts) - 1, len(fn_of)), {"op": op, "impl": r}); return
+            for k, ptxt in enumerate(parts[1:]):
+                w = ptxt.split()
+                pc, sym, hi, lo, cpu = map(int, w[:5])
+                check_pair(op, r, pc, sym, hi, lo, cpu, w[5], (op, fn_of[k], w[5]))
+            return
         kv = dict(x.split("=") for x in r.split()[1:])
         pc, sym, hi, lo, cpu = (int(kv[k]) for k in ("pc", "sym", "hi", "lo", "cpu"))
-        bump("asm-e2e")
-        nontrivial.add(("e2e", lo >= 0x800, (pc & 0xFFF) > 0xF00, sym < pc))
-        if cpu != sym or cpu_la64(pc, hi, lo) != sym:
-            ctx.violation("asm-e2e:la64-wrong-address", "%s: pcalau12i/addi.d fields hi20=%d lo12=%d at pc=%#x give %#x, the symbol is at %#x" % (
-                op, hi, lo, pc, cpu_la64(pc, hi, lo), sym), {"op": op, "impl": r})
-        e2e_model_ops.append("la %d %d" % (sym, pc)); e2e_fields.append("%d %d" % (hi, lo))
+        check_pair(op, r, pc, sym, hi, lo, cpu, "D", (op, 0, "D"))
 
     for op, r in zip(ops, impl):
         f = op.split()
-        if f[0] == "asmla":
+        if f[0] in ("asmla", "asmprog"):
             check_e2e(op, r); continue
         if r.startswith("PANIC") or r == "bad-op":
             ctx.violation("%s:%s" % (f[0], r.split()[0]), "%s -> %s" % (op, r), {"op": op, "impl": r})
@@ -213,16 +297,41 @@ def run(ctx):
             nops = ctx.rng.choice([0, 1, 2, 3, 979, 980, 981, 1003, 1004, ctx.rng.randrange(0, 2100)])
             pad = ctx.rng.choice([0, 1, 7, 8, 2039, 2040, 2047, 2048, 2049, 4087, 4088, 4095, 4096, ctx.rng.randrange(0, 20000)])
             e2e_ops.append("asmla %d %d %d %s" % (ctx.rng.choice(bases), nops, pad, ctx.rng.choice("td")))
+        # programs with SEVERAL references: the same symbol (data, label, function) referenced two or more times in one
+        # function, with gaps that put the references in the same page, in adjacent pages and in far pages, before and
+        # after the symbol's definition, plain and interleaved pairs; every emitted pair is checked.
+        e2e_ops += gen_programs(ctx)
         _, eo, _ = ctx.run_bin(harness, input_text="\n".join(e2e_ops) + "\n")
         for op, r in zip(e2e_ops, eo.splitlines()):
             check_e2e(op, r)
+        # probe: is the RISC-V %pcrel_hi/%pcrel_lo call site reachable through the assembler on this tree?
+        _, po, _ = ctx.run_bin(harness, input_text="rvprobe\n")
+        rv_reachable = po.strip() == "reachable"
+        if rv_reachable:
+            print("NOTE property=C18 the RISC-V %pcrel_hi/%pcrel_lo call site is now reachable through the assembler; "
+                  "running the single-reference end-to-end stream for it (extend gen_programs to RISC-V)")
+            rv_ops = ["%s %d %d %d %s" % (k, b, n, pd, o) for k in ("asmrv64", "asmrv32") for b in (0x80000000, 0x10000)
+                      for n in (0, 1, 1003, 1023) for pd in (0, 2040, 2048, 4088) for o in "td"]
+            _, ro, _ = ctx.run_bin(harness, input_text="\n".join(rv_ops) + "\n")
+            for op, r in zip(rv_ops, ro.splitlines()):
+                if not r.startswith("ok "):
+                    ctx.notes.append("riscv e2e: %s -> %s" % (op, r)); continue
+                kv = dict(x.split("=") for x in r.split()[1:])
+                pc, sym, hi, lo, cpu = (int(kv[k]) for k in ("pc", "sym", "hi", "lo", "cpu"))
+                bump("asm-e2e-riscv")
+                want = sym & M32 if op.startswith("asmrv32") else sym
+                if cpu != want:
+                    ctx.violation("asm-e2e:riscv-wrong-address", "%s: auipc/addi fields hi=%d lo=%d at pc=%#x give %#x, the symbol is at %#x" % (
+                        op, hi, lo, pc, cpu, sym), {"op": op, "impl": r})
+        else:
+            ctx.notes.append("RISC-V %%pcrel call site not reachable through the assembler: %s" % po.strip())
 
     # ---------------- correspondence with the Lean model ----------------
     if model and e2e_model_ops:
         _, mo, _ = ctx.run_bin(model, input_text="\n".join(e2e_model_ops) + "\n")
         for i, op, a, b in ctx.diff_lines(e2e_model_ops, e2e_fields, mo.splitlines())[:20]:
             ctx.proof["broken"].append({"theorem": "correspondence C18 assembler-emitted fields vs model", "why": "op %r: emitted=%r model=%r" % (op, a, b)})
-    mpairs = [(op, r) for op, r in zip(ops, impl) if not op.startswith("asmla")]
+    mpairs = [(op, r) for op, r in zip(ops, impl) if not op.startswith("asm")]
     if model and mpairs:
         mops, mimpl = [x[0] for x in mpairs], [x[1] for x in mpairs]
         _, mout, _ = ctx.run_bin(model, input_text="\n".join(mops) + "\n")
@@ -261,6 +370,7 @@ def run(ctx):
         "distribution": dist,
         "swept_values": swept,
         "exhaustive": swept == 2 * (1 << 32),
+        "riscv_pcrel_call_site_reachable": (not ctx.replay) and rv_reachable,
     }
     return ctx.finish("proof", cov,
                       assumptions=["CPU semantics of auipc/addi (RV32I/RV64I) and pcalau12i/addi.d (LA64) as written in Model/C18.lean, checks/c18.py and harness/c18 (three copies cross-checked)",
